@@ -92,9 +92,21 @@ func c04CheckData(c *kit.Case, h *kit.XHistory, data []byte, info *kit.XRenderIn
 	ctx := func() string {
 		return fmt.Sprintf("%s\nsections=%v features=%v file=%d bytes", desc, info.Kinds, info.Features, len(data))
 	}
-	r, err := pdf.NewReader(bytes.NewReader(data), int64(len(data)), &pdf.ReaderOptions{ErrorHandling: pdf.ErrorHandlingStop})
+	var src io.ReaderAt = bytes.NewReader(data)
+	srcKind := ""
+	if len(data)%2 == 1 {
+		// a byte source which reports io.EOF together with the last bytes, as
+		// the io.ReaderAt contract allows
+		src = c04EagerEOF{data}
+		srcKind = "source-reports-EOF-with-last-bytes/"
+		c.R.Count("files_opened_through_eager_EOF_source", 1)
+		if len(data) <= 1024 {
+			c.R.Count("files_up_to_1024_bytes_through_eager_EOF_source", 1)
+		}
+	}
+	r, err := pdf.NewReader(src, int64(len(data)), &pdf.ReaderOptions{ErrorHandling: pdf.ErrorHandlingStop})
 	if err != nil {
-		c.Violationf(keyPrefix+"open", "%s\nNewReader: %v", ctx(), err)
+		c.Violationf(keyPrefix+srcKind+"open", "%s\nNewReader: %v", ctx(), err)
 		return
 	}
 	c.R.Count("files_opened", 1)
@@ -165,6 +177,7 @@ func c04CheckData(c *kit.Case, h *kit.XHistory, data []byte, info *kit.XRenderIn
 				c.Violationf(keyPrefix+"value/stream-body", "%s\nstream %d %d R: read %s (%v), model %s", ctx(), ref.Num, ref.Gen, kit.Q(body), err, kit.Q(ws.Raw))
 			}
 			c.R.Count("streams_compared", 1)
+			c04SeekMonitor(c, gs, keyPrefix, ctx)
 			continue
 		}
 		if g, w := gen.Canon(got), kit.XCanon(want); g != w {
@@ -183,6 +196,78 @@ func c04CheckData(c *kit.Case, h *kit.XHistory, data []byte, info *kit.XRenderIn
 		}
 	}
 	c.R.Count("trailers_compared", 1)
+}
+
+// c04EagerEOF is a byte source that returns io.EOF together with the data
+// whenever a read reaches the end of the input.
+type c04EagerEOF struct{ data []byte }
+
+func (e c04EagerEOF) ReadAt(p []byte, off int64) (int, error) {
+	if off < 0 {
+		return 0, fmt.Errorf("negative offset")
+	}
+	if off >= int64(len(e.data)) {
+		return 0, io.EOF
+	}
+	n := copy(p, e.data[off:])
+	if off+int64(n) == int64(len(e.data)) {
+		return n, io.EOF
+	}
+	return n, nil
+}
+
+// c04SeekMonitor runs a short program of in-range Seek and Read calls on the
+// raw-data reader of a stream against bytes.Reader over the same bytes.
+func c04SeekMonitor(c *kit.Case, gs *pdf.Stream, keyPrefix string, ctx func() string) {
+	raw, err := io.ReadAll(gs.NewReader())
+	if err != nil {
+		c.Violationf(keyPrefix+"raw-reader/read", "%s\nreading the raw stream data: %v", ctx(), err)
+		return
+	}
+	size := int64(len(raw))
+	model := bytes.NewReader(raw)
+	rs := gs.NewReader()
+	var prog []string
+	for step := 0; step < 6; step++ {
+		pos, _ := model.Seek(0, io.SeekCurrent)
+		var off int64
+		whence := c.Rng.Intn(4)
+		switch whence {
+		case io.SeekStart:
+			off = int64(c.Rng.Intn(int(size) + 1))
+		case io.SeekCurrent:
+			off = int64(c.Rng.Intn(int(size)+1)) - pos
+		case io.SeekEnd:
+			off = -int64(c.Rng.Intn(int(size) + 1))
+		default:
+			// read a few bytes
+			n := 1 + c.Rng.Intn(40)
+			wb, gb := make([]byte, n), make([]byte, n)
+			wn, _ := io.ReadFull(model, wb)
+			gn, _ := io.ReadFull(rs, gb)
+			prog = append(prog, fmt.Sprintf("Read(%d)", n))
+			if wn != gn || !bytes.Equal(wb[:wn], gb[:gn]) {
+				c.Violationf(keyPrefix+"raw-reader/seek-then-read", "%s\nraw data reader of a %d byte stream after %v: read %s, the data at that position is %s",
+					ctx(), size, prog, kit.Q(gb[:gn]), kit.Q(wb[:wn]))
+				return
+			}
+			continue
+		}
+		wp, _ := model.Seek(off, whence)
+		gp, err := rs.Seek(off, whence)
+		prog = append(prog, fmt.Sprintf("Seek(%d,%d)", off, whence))
+		if err != nil || gp != wp {
+			c.Violationf(keyPrefix+"raw-reader/seek-position", "%s\nraw data reader of a %d byte stream after %v: position %d, %v; expected %d", ctx(), size, prog, gp, err, wp)
+			return
+		}
+	}
+	rest, _ := io.ReadAll(rs)
+	wrest, _ := io.ReadAll(model)
+	if !bytes.Equal(rest, wrest) {
+		c.Violationf(keyPrefix+"raw-reader/seek-then-read", "%s\nraw data reader of a %d byte stream after %v: the rest reads as %s, expected %s", ctx(), size, prog, kit.Q(rest), kit.Q(wrest))
+		return
+	}
+	c.R.Count("raw_reader_seek_programs", 1)
 }
 
 // c04History builds a history from an action code: per revision and object one
@@ -301,8 +386,22 @@ func TestVerifC04(t *testing.T) {
 		}
 		state := map[uint32]*st{}
 		var refs []kit.XRef
+		var numbers []uint32
 		for i := 0; i < no; i++ {
-			refs = append(refs, kit.XRef{Num: uint32(3 + i)})
+			numbers = append(numbers, uint32(3+i))
+		}
+		far := c.Rng.Chance(1, 5)
+		if far {
+			// a few objects with large numbers: short subsections (or /Index
+			// pairs) far above the rest, and a /Size to match
+			base := uint32(9000 + c.Rng.Intn(90000))
+			for i, k := 0, 1+c.Rng.Intn(3); i < k; i++ {
+				numbers = append(numbers, base+uint32(i*c.Rng.Range(1, 500)))
+			}
+			c.R.Count("histories_with_large_object_numbers", 1)
+		}
+		for _, n := range numbers {
+			refs = append(refs, kit.XRef{Num: n})
 		}
 		for ri := 0; ri < nr; ri++ {
 			rev := kit.XRev{Actions: map[uint32]kit.XAction{}, Kind: kinds[ri], Extra: kit.XDict{"XXVerifRev": int64(ri)}}
@@ -311,8 +410,7 @@ func TestVerifC04(t *testing.T) {
 				rev.Actions[2] = kit.XAction{Value: c04Pages()}
 			}
 			cnt := 0
-			for i := 0; i < no; i++ {
-				n := uint32(3 + i)
+			for _, n := range numbers {
 				s := state[n]
 				if s == nil {
 					s = &st{}
@@ -343,6 +441,9 @@ func TestVerifC04(t *testing.T) {
 			h.Revs = append(h.Revs, rev)
 		}
 		desc := fmt.Sprintf("v%s %d objects, revisions %s", version, no, strings.Join(descs, " "))
+		if far {
+			desc += fmt.Sprintf(" numbers up to %d", numbers[len(numbers)-1])
+		}
 		prefix := ""
 		if mixed {
 			prefix = "mixed-section-kinds/"
